@@ -329,8 +329,13 @@ impl Check for C20 {
                         let (ga, gb) = (imp::is_match(&a, inp), imp::is_match(&b, inp));
                         let (ga, gb) = match (ga, gb) {
                             (Out::Ok(x), Out::Ok(y)) => (x, y),
-                            _ => {
-                                out.inc("inconclusive_crash");
+                            (x, y) => {
+                                if x.is_crash() != y.is_crash() {
+                                    out.inc("validated");
+                                    out.fail("C20", &Case::new(&scope_name, &text, flags).input(inp).repl(&format!("law:{}@{}", rw.law, pos)).api("is_match"), "OnlyOneSpellingCrashes", &format!("same outcome for {:?} and {:?}", text, text2), &format!("{} vs {}", x.show(), y.show()), "a panic or an exhausted step budget for one spelling only is a difference");
+                                } else {
+                                    out.inc("inconclusive_crash");
+                                }
                                 continue;
                             }
                         };
